@@ -44,15 +44,18 @@ func BuildWorlds(cfg Config, prop string, nFix, nSyn, rejectPct int, rich bool, 
 	// last (at formatting, i.e. after everything but the write), so that even a
 	// small batch holds a late failure; likewise the first accepted synthetic
 	// worlds are forced to have a dotted setup file name / a nested package dir
-	late := []string{"bad-literal", "unknown-converter", "syntax-error", "non-struct-operand", "reverse-without-arg", "unresolved-type", "no-interface", "bad-style"}
+	late := []string{"bad-literal", "gomod-lagging", "unknown-converter", "syntax-error", "non-struct-operand", "reverse-without-arg", "unresolved-type", "no-interface", "bad-style"}
 	nRej, nAcc := 0, 0
 	for i := 0; i < nSyn; i++ {
 		r := sim.Derive(cfg.Seed, prop, "world", i)
 		opts := sim.GenOpts{Rich: rich}
-		if r.Intn(100) < rejectPct || (rejectPct > 0 && i == 1) {
+		if rich && i%5 == 3 {
+			opts.Clean = true // a fifth of the rich worlds is free of diagnostics
+		}
+		if !opts.Clean && (r.Intn(100) < rejectPct || (rejectPct > 0 && i == 1)) {
 			opts.Reject = late[nRej%len(late)]
 			nRej++
-		} else {
+		} else if !opts.Clean {
 			switch nAcc {
 			case 0:
 				opts.SetupName = "my.setup.go"
